@@ -184,16 +184,28 @@ def variant_dir(scratch, ob):
     if os.path.exists(marker):
         return d, json.load(open(marker))
     lock = d + ".lock"
+    failed = d + ".failed"
     try:
         os.mkdir(lock)
     except FileExistsError:
         while not os.path.exists(marker):
             time.sleep(0.1)
+            if os.path.exists(failed):      # the thread that was staging this variant gave up: same verdict for everybody
+                raise S.StageError(open(failed).read())
             if not os.path.exists(lock) and not os.path.exists(marker):
                 break
         if os.path.exists(marker):
             return d, json.load(open(marker))
+    try:
+        return _make_variant(scratch, ob, d, marker, lock, key, loops, renames, only, wide, watch)
+    except Exception as e:
+        open(failed, "w").write("staging of variant %s failed: %s" % (key, e))
+        raise
+
+
+def _make_variant(scratch, ob, d, marker, lock, key, loops, renames, only, wide, watch):
     tmp = os.path.join(scratch, "t_" + key)
+    shutil.rmtree(tmp, ignore_errors=True)
     shutil.copytree(os.path.join(scratch, "clean"), tmp)
     injected = S.inject_loops(tmp, loops, only_funcs=set(only) if only else None) if loops else []
     for fname, funcs in renames:
